@@ -75,7 +75,11 @@ def main():
     if not a.no_check:
         t0 = time.time()
         env = dict(os.environ, VERIF_REPO=WT)
+        evf = os.path.join(ROOT, "evidence", prop + ".json")
+        saved = open(evf).read() if os.path.exists(evf) else None
         rc, out = sh([os.path.join(ROOT, "check"), prop, "--tier", a.tier], cwd=ROOT, env=env)
+        if saved is not None:           # evidence must only ever come from runs against /repo itself
+            open(evf, "w").write(saved)
         res["check_rc"] = rc
         res["check_s"] = round(time.time() - t0)
         res["check_violation_lines"] = [l for l in out.splitlines() if l.startswith("VIOLATION")]
